@@ -173,6 +173,17 @@ example : Refines [] (fun _ => none) := fun _ => trivial
 /-- `Op.WF` is satisfiable by real requests -/
 example : (Op.addChild "c1" ["a", "b"]).WF := by show Sorted ["a", "b"]; decide
 
+/-- **The excluded point of `Op.WF` is real, and what the code does there**: `AddChild` accepts a trait
+list that is sorted but has a duplicate (`validateChild` only rejects descending neighbours); removing
+that trait afterwards removes one copy, so a removed trait is still listed — the set-difference claim
+needs the duplicate-free hypothesis.  (An unsorted list is rejected by the documented panic, see
+`C20_parent_no_panic`.) -/
+theorem C20_parent_seq_fails_without_WF :
+    ∃ ts : List String, isSorted ts = true ∧ ¬ Sorted ts ∧
+      "a" ∈ (lookup "c" (run [] [.addChild "c" ts, .removeTrait "c" ["a"]])).getD [] ∧
+      (step [] (.addChild "c" ["b", "a"])).2 = "panic" :=
+  ⟨["a", "a"], by decide, by decide, by decide, by decide⟩
+
 /-- Well-formed requests never reach the panic outcome: the only panic is the documented one of
 `AddChild` (empty name or traits not sorted). -/
 theorem C20_parent_no_panic (s : Children) (op : Op) (h : (step s op).2 = "panic") :
